@@ -27,7 +27,8 @@ CONSTANTS
   MaxDepth,      \* nesting depth bound of generated expressions (leaves have depth 0)
   MaxStack,      \* operand stack bound (2: at most one pending operand)
   MaxBinNest,    \* bound on the nesting of binary nodes (1: operands of a binary node contain no binary node)
-  MatcherKinds,  \* matcher kinds allowed on label a (b takes {"none","eq"} \cap MatcherKinds \cup {"none"})
+  MatcherKinds,  \* matcher kinds allowed on label a
+  MatcherKindsB, \* matcher kinds allowed on label b
   Leaves,        \* subset of {"sel","seloff","num","time","vec"}
   UnFns,         \* subset of {"abs","neg","scalar","vecs","absent","rate","lot","lotsub","absentot","lrepc","lrepa","lrepcx","lrepdel","ljoin"}
   AggOps,        \* subset of {"sum","count","topk","cv"}
@@ -35,7 +36,7 @@ CONSTANTS
   ArithOps, CmpOps, SetOps,  \* binary operators
   MatchSets,     \* label sets usable in on()/ignoring()
   GroupIncs,     \* label sets usable in group_left()/group_right(); {} switches grouping off
-  Fixes,         \* which repairs proposed under /verif/fixes the analysed tree contains: subset of {"F6", "F12"}
+  Fixes,         \* which repairs proposed under /verif/fixes the analysed tree contains: subset of {"F6", "OnForced", "EmptyEq"}
   DBSeries,      \* bound on the number of series per metric in a database
   DBA, DBB, DBC, \* label values (besides absent) stored series may carry for a, b, c
   DBVals         \* sample values of stored series
@@ -116,7 +117,8 @@ restrictGuaranteedLabels(s, names) == [s EXCEPT !.gua = @ \cap names]
 excludeLabel(s, names)     == [s EXCEPT !.exc = @ \cup names, !.inc = @ \ names, !.gua = @ \ names]
 
 \* matcher kinds: which are `=`, which are `=` or `=~`
-EqKinds == {"eq", "eqy", "empty"}
+\* (fix EmptyEq: labelsFromSelectors skips `label=""`, which matches series *without* the label)
+EqKinds == IF "EmptyEq" \in Fixes THEN {"eq", "eqy"} ELSE {"eq", "eqy", "empty"}
 GuaKinds == EqKinds \cup {"re", "reany"}
 SelLabels(e, kinds) == (IF e.ma \in kinds THEN {"a"} ELSE {}) \cup (IF e.mb \in kinds THEN {"b"} ELSE {})
 
@@ -129,9 +131,9 @@ canJoin(ls, rs, on, ml) ==
   IF on /\ ml = {} THEN TRUE
   ELSE IF on THEN \A nm \in ml : ~(CanHaveLabel(ls, nm) /\ ~CanHaveLabel(rs, nm))
   ELSE \A nm \in (IF "F6" \in Fixes THEN ls.gua \ ml ELSE ls.gua) : ~(CanHaveLabel(ls, nm) /\ ~CanHaveLabel(rs, nm))
-\* (fix F12) func joinSide(orig, s, vm): with on(...) the listed labels are force-included on the result, so the
+\* (fix OnForced) func joinSide(orig, s, vm): with on(...) the listed labels are force-included on the result, so the
 \* source as it was before that is the one canJoin must look at
-joinSide(orig, s, on) == IF "F12" \in Fixes /\ on THEN orig ELSE s
+joinSide(orig, s, on) == IF "OnForced" \in Fixes /\ on THEN orig ELSE s
 
 ArithV(op, x, y) == IF x = NaN \/ y = NaN THEN NaN
                     ELSE CASE op = "+" -> x + y [] op = "-" -> x - y [] op = "*" -> x * y
@@ -460,7 +462,7 @@ DBs == {x \cup y : x \in MetricDBs("m"), y \in MetricDBs("n")}
 VARIABLE stk        \* sequence of [e, d, nb]: expression, its nesting depth, its nesting of binary nodes
 vars == <<stk>>
 
-BKinds == {"none", "eq"} \cap (MatcherKinds \cup {"none"})
+BKinds == MatcherKindsB
 LeafSet ==
   (IF "sel" \in Leaves THEN {Sel(m, ma, mb, FALSE) : m \in {"m", "n"}, ma \in MatcherKinds, mb \in BKinds} ELSE {})
   \cup (IF "seloff" \in Leaves THEN {Sel("m", ma, "none", TRUE) : ma \in MatcherKinds} ELSE {})
